@@ -84,6 +84,14 @@ impl DependencyGraph {
         loop {
             if let Some(result) = me.wait_results.remove(&from_id) {
                 debug_assert!(!me.edges.contains_key(&from_id));
+                #[cfg(feature = "verif")]
+                {
+                    crate::verif::trace(|| crate::verif::DgOp::Resume {
+                        thread: crate::verif::thread_token(from_id),
+                        result: result.verif(),
+                    });
+                    me.verif_sizes();
+                }
                 return result;
             }
             me = cvar.wait(me);
@@ -115,6 +123,45 @@ impl DependencyGraph {
             .entry(database_key)
             .or_default()
             .push(from_id);
+        #[cfg(feature = "verif")]
+        {
+            crate::verif::trace(|| crate::verif::DgOp::BlockOn {
+                from: crate::verif::thread_token(from_id),
+                key: database_key,
+                to: crate::verif::thread_token(to_id),
+            });
+            self.verif_sizes();
+        }
+    }
+
+    #[cfg(feature = "verif")]
+    fn verif_sizes(&self) {
+        crate::verif::trace(|| crate::verif::DgOp::Sizes {
+            edges: self.edges.0.len() as u32,
+            query_dependents: self.query_dependents.len() as u32,
+            wait_results: self.wait_results.len() as u32,
+            transferred: self.transferred.len() as u32,
+            transferred_dependents: self
+                .transferred_dependents
+                .values()
+                .map(|set| set.0.len() as u32)
+                .sum(),
+        });
+    }
+
+    /// True if no thread is blocked, no result is pending and no lock is transferred.
+    #[cfg(feature = "verif")]
+    pub(super) fn verif_is_quiescent(&self) -> Result<(), String> {
+        if self.edges.0.is_empty()
+            && self.query_dependents.is_empty()
+            && self.wait_results.is_empty()
+            && self.transferred.is_empty()
+            && self.transferred_dependents.values().all(|set| set.0.is_empty())
+        {
+            Ok(())
+        } else {
+            Err(format!("dependency graph not empty at quiescence: {self:?}"))
+        }
     }
 
     /// Invoked when runtime `to_id` completes executing
@@ -124,6 +171,13 @@ impl DependencyGraph {
         database_key: DatabaseKeyIndex,
         wait_result: WaitResult,
     ) {
+        #[cfg(feature = "verif")]
+        crate::verif::trace(|| crate::verif::DgOp::ReleaseKey {
+            key: database_key,
+            result: wait_result.verif(),
+            panicking: crate::sync::thread::panicking(),
+        });
+
         let dependents = self
             .query_dependents
             .remove(&database_key)
@@ -132,6 +186,9 @@ impl DependencyGraph {
         for from_id in dependents {
             self.unblock_runtime(from_id, wait_result);
         }
+
+        #[cfg(feature = "verif")]
+        self.verif_sizes();
     }
 
     /// Unblock the runtime with the given id with the given wait-result.
@@ -140,6 +197,11 @@ impl DependencyGraph {
     fn unblock_runtime(&mut self, id: ThreadId, wait_result: WaitResult) {
         let edge = self.edges.remove(&id).expect("not blocked");
         self.wait_results.insert(id, wait_result);
+        #[cfg(feature = "verif")]
+        crate::verif::trace(|| crate::verif::DgOp::Unblock {
+            thread: crate::verif::thread_token(id),
+            result: wait_result.verif(),
+        });
 
         // Now that we have inserted the `wait_results`,
         // notify the thread.
@@ -166,6 +228,12 @@ impl DependencyGraph {
             }
         }
 
+        #[cfg(feature = "verif")]
+        crate::verif::trace(|| crate::verif::DgOp::ReleaseTransferred {
+            owner: database_key,
+            result: wait_result.verif(),
+        });
+
         // If `database_key` is `c` and it has been transferred to `b` earlier, remove its entry.
         tracing::trace!(
             "unblock_runtimes_blocked_on_transferred_queries_owned_by({database_key:?}"
@@ -181,9 +249,16 @@ impl DependencyGraph {
         }
 
         unblock_recursive(self, database_key, wait_result);
+
+        #[cfg(feature = "verif")]
+        self.verif_sizes();
     }
 
     pub(super) fn undo_transfer_lock(&mut self, database_key: DatabaseKeyIndex) {
+        #[cfg(feature = "verif")]
+        crate::verif::trace(|| crate::verif::DgOp::UndoTransfer {
+            query: database_key,
+        });
         if let Some((_, owner)) = self.transferred.remove(&database_key) {
             self.transferred_dependents
                 .get_mut(&owner)
@@ -246,6 +321,14 @@ impl DependencyGraph {
                     .expect("new owner should be blocked on `query`")
             }
         };
+
+        #[cfg(feature = "verif")]
+        crate::verif::trace(|| crate::verif::DgOp::Transfer {
+            query,
+            current: crate::verif::thread_token(current_thread),
+            new_owner,
+            new_owner_thread: crate::verif::thread_token(new_owner_thread),
+        });
 
         debug_assert!(
             new_owner_thread == current_thread || dg.depends_on(new_owner_thread, current_thread),
@@ -340,6 +423,8 @@ impl DependencyGraph {
             tracing::debug!("Unblocking new owner of transfer target {new_owner:?}");
             dg.unblock_transfer_target(query, new_owner_thread);
             dg.update_transferred_edges(query, new_owner_thread);
+            #[cfg(feature = "verif")]
+            dg.verif_sizes();
 
             // Block on the new owner, unless new owner is blocked on this query.
             // This is necessary to avoid a race between `fetch` completing and `provisional_retry` blocking on the
